@@ -194,7 +194,11 @@ class ControlFlowTransformer(converter.Base):
 
     # Variables that are modified inside the scope, and depend on values outside
     # it.
-    input_only = basic_scope_vars & live_in - live_out
+    # Names declared global or nonlocal stay observable after the function
+    # returns, so a write to them is an output even if the function itself
+    # never reads the name again.
+    input_only = (basic_scope_vars & live_in - live_out
+                  - fn_scope.globals - fn_scope.nonlocals)
 
     # Place the outputs first, then sort lexicographically.
     scope_vars = sorted(scope_vars, key=lambda v: (v in input_only, v))
